@@ -21,6 +21,7 @@ ACCESSOR_LABEL = {
     "Month::number_from_month": "month_1", "Tz::name": "tz_name", "Uuid::into_bytes": "uuid_bytes", "Uuid::as_bytes": "uuid_bytes",
     "<u8 as From<bool>>::from": "bool01",
     "<T as ToString>::to_string": "decimal_text", "<BigInt as ToBytes>::to_be_bytes": "signed_be_bytes",
+    "BigInt::to_signed_bytes_be": "signed_be_bytes",
     "NaiveDateTime::date": "date", "NaiveDateTime::time": "time", "checked_naive_local": "local_datetime",
     "DateTime<Tz>::naive_utc": "utc_datetime", "DateTime<Tz>::offset": "offset", "char::encode_utf16": "utf16_unit",
     "<TzOffset as OffsetName>::tz_id": "tz_id", "<Tz as FromStr>::from_str": "tz",
@@ -38,6 +39,7 @@ CTOR_LABEL = {
     ("i8::checked_sub", 0): "weekday_from_monday_1", ("FromPrimitive::from_i8", 0): "month_1",
     ("<Tz as FromStr>::from_str", 0): "tz_name", ("Uuid::from_bytes", 0): "uuid_bytes", ("str::parse", 0): "decimal_text",
     ("BigInt::from_signed_bytes_be", 0): "signed_be_bytes", ("char::decode_utf16", 0): "utf16_unit",
+    ("char::from_u32", 0): "utf16_unit",      # for a 16-bit argument: None exactly on the surrogate range, like decode_utf16
 }
 
 
@@ -287,6 +289,8 @@ def _abstract_writer(ev, self_is_bytes=False, path=None):
                 if x[0] == "len" or (x[0] == "call" and (x[1] in guards.PURE_LEN or x[1].endswith("::len"))):
                     inner = x[1] if x[0] == "len" else x[3][0]
                     lenof = _payload_name(inner)
+                    if x[0] == "call" and x[1] in ("str::len", "String::len"):
+                        lenof = "utf8"          # the length of a string is the length of its UTF-8 bytes
                 elif x[0] == "const" and x[2] is None and x[3] and re.match(r"^[A-Z]\w*(/#\d+)?$", x[3]) and lenof is None:
                     lenof = "self"          # the const generic length of the array `self`
             if lenof is not None:
@@ -502,6 +506,13 @@ def pairs_unify(an, rep, features="default"):
                     continue
                 if "read_u8" in show(c) or "read_var" in show(c):
                     if not isinstance(a[2], int):           # the `otherwise` edge of a switch on a wire value
+                        # a value that is handed on as data on this edge (`match v { 0 => new_v0(), v => new(v) }`) is not a
+                        # tag with unknown alternatives
+                        i_at = p.events.index(a)
+                        key = repr(guards.norm(c))
+                        if any(e[0] == "call" and any(repr(guards.norm(x)) == key for y in e[5] for x in mir.walk_expr(y))
+                               for e in p.events[i_at + 1:]):
+                            continue
                         kind, what = outcome_of(p)
                         G7.check(kind in ("err", "errprop") or p.outcome[0] != "return", "<%s as BinaryDeserializer>::deserialize" % s,
                                  "otherwise edge", "an unknown tag value %s does not lead to an error" % (a[2],), mir.loc(rb, 0),
